@@ -89,7 +89,8 @@ function genSpec(seed, idx) {
     const owner = rng.pick(opaques);
     const nl = rng.pick([1, 2, 3, 4, 4]);
     const lts = LTS.slice(0, nl);
-    const implLts = owner.lts.map((_, i) => "s" + i);
+    // the Self type of the impl block: usually fully generic, sometimes with a 'static slot (`impl<'s1> O<'static, 's1>`)
+    const implLts = owner.lts.map((_, i) => (rng.chance(1, 6) ? "static" : "s" + i));
     const anyLt = () => rng.pick(lts);
     const outerLt = () => (rng.chance(1, 4) ? null : anyLt()); // null = anonymous `&T`
     const isStatic = rng.chance(1, 3);
@@ -136,7 +137,7 @@ function genSpec(seed, idx) {
         const rl = [...ret.args, ...(ret.lt ? [ret.lt] : [])];
         if (rl.length) { const r = rng.pick(rl); for (const x of lts) if (x !== r && rng.chance(5, 6)) addBound(x, r); }
     }
-    const implBounds = owner.bounds.map(([l, s]) => ["s" + owner.lts.indexOf(l), "s" + owner.lts.indexOf(s)]);
+    const implBounds = owner.bounds.map(([l, s]) => [implLts[owner.lts.indexOf(l)], implLts[owner.lts.indexOf(s)]]).filter(([l, s]) => l !== "static" && s !== "static");
     methods.push({ owner: owner.name, name: "m" + m, static: isStatic, lts, implLts, implBounds, self, params, ret, bounds });
   }
   return { seed, idx, opaques, structs, outs, methods };
@@ -198,13 +199,16 @@ export function rustSource(spec) {
     if (!o.lts.length) s += "        pub fn mk() -> Box<" + o.name + "> { unimplemented!() }\n";
     else s += "        pub fn mk" + generics(o.lts, o.bounds) + "(" + o.lts.map((l, i) => "src" + i + ": &" + lt(l) + " DiplomatStr").join(", ") + ") -> Box<" + o.name + tyArgs(o.lts) + "> { unimplemented!() }\n";
     s += "        pub fn id(&self) -> u32 { unimplemented!() }\n";
+    s += "    }\n\n";
     for (const m of spec.methods.filter((m) => m.owner === o.name)) {
       const ps = [];
       if (m.self) ps.push((m.self.lt ? "&" + lt(m.self.lt) + " " : "&") + "self");
       for (const p of m.params) ps.push(p.name + ": " + paramTy(p));
+      const named = m.implLts.filter((l) => l !== "static");
+      s += "    impl" + generics(named, m.implBounds) + " " + o.name + tyArgs(m.implLts) + " {\n";
       s += "        pub fn " + m.name + generics(m.lts, m.bounds) + "(" + ps.join(", ") + ") -> " + retTy(m.ret) + " { unimplemented!() }\n";
+      s += "    }\n\n";
     }
-    s += "    }\n\n";
   }
   return s + "}\n";
 }
@@ -229,7 +233,7 @@ export function outlives(spec, m) {
   if (m.ret.lt) ref(m.ret.lt, m.ret.args);
   defBounds(m.ret.ty, m.ret.args);
   // closure
-  const all = new Set([...m.lts, ...m.implLts]);
+  const all = new Set([...m.lts, ...m.implLts.filter((l) => l !== "static")]);
   const out = (x, y) => x === y || x === "static" || reach(x).has(y);
   const memo = new Map();
   function reach(x) {
